@@ -32,7 +32,7 @@ fn strings_upto(alpha: &[&str], maxlen: usize) -> Vec<String> {
 
 const DIRS: [char; 15] = ['p', 'P', 'f', 'h', 'H', 'd', 's', 'n', 'i', 'U', 'G', 'm', 'y', 'Y', 'l'];
 
-fn gen_format(rng: &mut Rng, with_l: bool) -> String {
+pub fn gen_format(rng: &mut Rng, with_l: bool) -> String {
     let mut f = String::new();
     for _ in 0..rng.range(1, 6) {
         match rng.below(10) {
